@@ -47,6 +47,14 @@ GRAMMARS = {
     "two": "start = second $ ;\nfirst = /\\d+/ ;\nsecond = /[a-z]+/ ;\n",
     "bad": "start = undefined_rule $ ;\n",                                # compile error
     "typed_d": "start = word $ ;\nword::Num = /[a-z]+/ ;\n",                # type name 'Num' again, on another rule
+    # values that are equal but of different types (1, 1.0, True): anything keyed by value may confuse them
+    "nums": "start = value $ ;\nvalue = real | integer | flag ;\ninteger::int = /\\d+/ ;\nreal::float = /\\d+\\.\\d+/ ;\nflag::bool = 'yes' ;\n",
+    "nums_b": "start = value $ ;\nvalue = integer | flag ;\ninteger::int = /\\d+/ ;\nflag::bool = 'yes' | 'on' ;\n",
+    # grammars that differ only in white space that matters (inside a token, inside a pattern)
+    "tok_a": "start = 'end if' $ ;\n",
+    "tok_b": "start = 'end  if' $ ;\n",
+    "pat_a": "start = /\\d+ \\d+/ $ ;\n",
+    "pat_b": "start = /\\d+  \\d+/ $ ;\n",
     "kw_b": "@@keyword :: then else\nstart = name $ ;\n@name\nname = /[a-z]+/ ;\n",  # same rules as 'kw', other keywords
 }
 INPUTS = {
@@ -67,10 +75,17 @@ INPUTS = {
     "two": ["ab", "12"],
     "bad": ["x"],
     "typed_d": ["ab", "1"],
+    "nums": ["1", "1.0", "yes", "0", "0.0", "2", "2.5", "x"],
+    "nums_b": ["1", "yes", "on", "0", "1.0"],
+    "tok_a": ["end if", "end  if"],
+    "tok_b": ["end if", "end  if"],
+    "pat_a": ["12 34", "12  34"],
+    "pat_b": ["12 34", "12  34"],
     "kw_b": ["x", "if", "then", "else"],
 }
-FAMILIES = [["typed", "typed_b", "typed_c", "params", "typed_d"], ["kw", "icase", "kw_b"], ["ref", "two", "choice", "ws"], ["lrec", "cut", "over", "named", "const"]]
-FAMILY_RULES = {"typed": ["start", "num", "word", "nosuch"], "kw": ["start", "name", "stmt"], "ref": ["start", "num", "word", "first", "second", "x", "nosuch"],
+FAMILIES = [["typed", "typed_b", "typed_c", "params", "typed_d"], ["kw", "icase", "kw_b"], ["ref", "two", "choice", "ws"], ["lrec", "cut", "over", "named", "const"],
+            ["nums", "nums_b"], ["tok_a", "tok_b", "pat_a", "pat_b"]]
+FAMILY_RULES = {"nums": ["start", "value", "integer", "real", "flag"], "tok_a": ["start"], "typed": ["start", "num", "word", "nosuch"], "kw": ["start", "name", "stmt"], "ref": ["start", "num", "word", "first", "second", "x", "nosuch"],
                 "lrec": ["start", "e", "n", "a", "b", "num"]}
 
 
@@ -229,8 +244,12 @@ def mask(s: str) -> str:
 def canon(v, depth=0):
     if depth > 40:
         return "<deep>"
-    if v is None or isinstance(v, (bool, int, float, str)):
+    if v is None or type(v) is str:
         return v
+    if type(v) in (bool, int, float):
+        return {type(v).__name__: repr(v)}  # 1, 1.0 and True are equal in Python and must not be here
+    if isinstance(v, (bool, int, float, str)):
+        return {"scalar": type(v).__name__, "repr": repr(v)}
     tname = type(v).__name__
     if isinstance(v, (list, tuple)):
         items = [canon(x, depth + 1) for x in v]
@@ -801,7 +820,7 @@ def gen_call(rng, handles, models_only=False, allow_fault=True, focus=None):
     return op
 
 
-GOOD_INPUT = {"ref": "12 ab", "choice": "a", "typed": "1", "typed_b": "1", "typed_c": "1 a", "typed_d": "ab", "params": "1", "kw": "x", "kw_b": "x",
+GOOD_INPUT = {"nums": "1", "nums_b": "1", "tok_a": "end if", "tok_b": "end  if", "pat_a": "12 34", "pat_b": "12  34", "ref": "12 ab", "choice": "a", "typed": "1", "typed_b": "1", "typed_c": "1 a", "typed_d": "ab", "params": "1", "kw": "x", "kw_b": "x",
               "icase": "x", "ws": "ab cd", "const": "a", "named": "1", "over": "(1)", "lrec": "1", "cut": "x y", "two": "ab"}
 
 
